@@ -117,6 +117,9 @@ def _gc_post(c):
                 z3.And(old1 != ABSENT, z3.Or(z3.Not(truthy(n)), node2(c, p, n, False) != ABSENT)),
                 z3.And(res == z3.If(truthy(n), node2(c, p, n, False), old1), M(c) == M(c, False)))),
             ('a-new-node-is-empty', z3.Implies(z3.Not(c.h0('$alloc')[res]), M(c)[res] == EMPTYMAP)),
+            ('a-node-that-existed-before-is-the-old-node-of-(provided,name)', z3.Implies(c.h0('$alloc')[res], z3.And(
+                old1 != ABSENT, z3.Or(z3.Not(truthy(n)), node2(c, p, n, False) != ABSENT),
+                res == z3.If(truthy(n), node2(c, p, n, False), old1), M(c) == M(c, False)))),
             ('dictionaries-that-existed-keep-their-entries-except-for-the-new-links', ForAllP([o, k], z3.Implies(
                 z3.And(c.h0('$alloc')[o], M(c)[o][k] != M(c, False)[o][k]),
                 z3.And(M(c, False)[o][k] == ABSENT, z3.Not(c.h0('$alloc')[M(c)[o][k]]),
